@@ -34,12 +34,12 @@ var (
 	pool     []*PoolKey
 )
 
-const poolSize = 19
+const poolSize = 24
 
 // poolAll counts the keys beyond the general pool as well: k19 (self-signed) and k20 (CA-issued) have validity
 // windows that begin and end inside the simulated time span (2030-06-15T12:00Z..2031-06-15T12:00Z and the year 2020).
 // Only the engines that reason about the clock use them.
-const poolAll = 21
+const poolAll = poolSize
 
 // Pool layout (see tools/genkeys): 0,1 plain RSA-2048; 2 RSA-3072 with a
 // high-bit serial; 3 RSA-4096 with leading-zero serial; 4 shares issuer AND
@@ -49,7 +49,9 @@ const poolAll = 21
 // different serials; 10..17 are further leaves of that CA over k8's key whose
 // certificate lengths are consecutive (796..803 bytes), so that signature blobs
 // of every length modulo 8 occur; 18 carries a 70000-byte extension (SignedData
-// beyond 65535 bytes).
+// beyond 65535 bytes); 19, 20 have short validity windows (see poolAll); 21..23 are self-signed certificates whose
+// distinguished names are encoded the way other tools encode them (UTF8String values with CN before O; an emailAddress
+// and a domainComponent attribute; a multi-valued RDN), so that re-encoding the parsed name does not give the same bytes.
 func Pool() []*PoolKey {
 	poolOnce.Do(func() {
 		dir := filepath.Join(verifRoot(), "fixtures", "keys")
